@@ -1,5 +1,5 @@
 From Coq Require Import List Bool ZArith String Ascii Lia.
-From V Require Import Base.Sort C17.Model C17.Proofs C17.Bridge.
+From V Require Import Base.Sort C17.Model C17.Proofs C17.Bridge C17.General.
 From V Require Import Extracted.Dssp.
 Import ListNotations.
 
@@ -101,6 +101,16 @@ Proof.
   pose proof (map_opt_length _ _ _ E) as Hlen.
   pose proof (bridge_word (wildcard cg)) as B. rewrite wildcard_length in B.
   specialize (B ltac:(lia) (wildcard_chars cg)). unfold rewrite_c in B.
+  destruct (rewrite_all pats (dot :: wildcard cg ++ [dot])) as [w|]; [|discriminate].
+  cbn in B. injection B as B. rewrite B. f_equal.
+  pose proof (by_runs_wildcard cg 0) as G. cbn [repeat app] in G. exact G.
+Qed.
+
+(* for DSSP strings of EVERY length the conversion IS the documented rule (C17/General.v) *)
+Lemma convert_run_rule_lemma seq : convert ss_cg pats seq = convert_spec ss_cg seq.
+Proof.
+  unfold convert, convert_spec. destruct (map_opt (lookup ss_cg) seq) as [cg|] eqn:E; [|reflexivity].
+  pose proof (rewrite_is_rule (wildcard cg) (wildcard_chars cg)) as B. unfold rewrite_c in B.
   destruct (rewrite_all pats (dot :: wildcard cg ++ [dot])) as [w|]; [|discriminate].
   cbn in B. injection B as B. rewrite B. f_equal.
   pose proof (by_runs_wildcard cg 0) as G. cbn [repeat app] in G. exact G.
